@@ -456,8 +456,10 @@ def run_docs(spec, res):
                             why = tree_diff(src, back, tree)
                             nested = has_nested_or_default_decls(text)
                             res.count('roundtrip:differs:' + why)
-                            res.violation('roundtrip-jsonml:' + ('document-with-nested-or-default-namespace-declarations' if nested
-                                                                 else 'root-only-prefixed-declarations:' + why), case,
+                            # (listed for documents that declare a default namespace somewhere; documents that only use prefixes,
+                            # declared or re-bound at any depth, must come back exactly - as for the data objects below)
+                            res.violation('roundtrip-jsonml:' + ('document-with-nested-or-default-namespace-declarations' if 'xmlns="' in text
+                                                                 else ('nested' if nested else 'root-only') + '-prefixed-declarations:' + why), case,
                                           f'jsonml/{mode}: encode(decode(d)) differs: {why}; encoded {str(back)[:160]}')
                         else:
                             res.count('roundtrip:agree')
